@@ -15,6 +15,7 @@ from . import build as buildmod
 from .prng import Rng, mix
 
 VERIF = buildmod.VERIF
+OUTDIR = buildmod.OUTDIR
 SHM = "/dev/shm"
 TOOL_TIMEOUT = 60.0
 
@@ -152,9 +153,12 @@ def shrink_case(mod, case, ctx, vclass, budget=400):
     passes over mod.shrink_candidates(case).  A candidate is accepted only if
     the same violation class persists."""
     tries = [0]
+    # shrinking is best effort: bounded in re-executions and in wall time (the unshrunk case replays just as well)
+    deadline = time.time() + float(os.environ.get("VERIF_SHRINK_SECONDS", "90" if getattr(ctx, "tier", "quick") == "quick" else "600"))
 
     def bad(cand):
-        if tries[0] >= budget:
+        if tries[0] >= budget or time.time() > deadline:
+            tries[0] = max(tries[0], budget)
             return False
         tries[0] += 1
         try:
@@ -245,8 +249,8 @@ def match_known(known, sig):
 
 # ----------------------------------------------------------------------- batch
 def write_replay(pid, seed, n, case, r, tier):
-    os.makedirs(os.path.join(VERIF, "replays"), exist_ok=True)
-    path = os.path.join(VERIF, "replays", "%s-%d-%d.json" % (pid, seed, n))
+    os.makedirs(os.path.join(OUTDIR, "replays"), exist_ok=True)
+    path = os.path.join(OUTDIR, "replays", "%s-%d-%d.json" % (pid, seed, n))
     with open(path, "w") as f:
         json.dump({"property": pid, "seed": seed, "tier": tier, "vclass": r["vclass"], "sig": r["sig"],
                    "detail": r["detail"][:4000], "case": case}, f, indent=1, sort_keys=True)
@@ -415,8 +419,8 @@ def run_check(pid, tier, seed, nworkers=None, max_violations=4):
         "violations": nviol,
     }
     ev["coverage"].update(extra)
-    os.makedirs(os.path.join(VERIF, "evidence"), exist_ok=True)
-    with open(os.path.join(VERIF, "evidence", pid + ".json"), "w") as f:
+    os.makedirs(os.path.join(OUTDIR, "evidence"), exist_ok=True)
+    with open(os.path.join(OUTDIR, "evidence", pid + ".json"), "w") as f:
         json.dump(ev, f, indent=1, sort_keys=True)
     for l in out_lines:
         print(l)
